@@ -248,6 +248,19 @@ def run_history(cfg):
                 for a, ax in enumerate('xyz'[:cfg['dim']]):
                     arr = pa.get(ax, only_real_particles=False)
                     arr[:nr] += mv[a]
+            if cfg.get('adds') and cfg['adds'][r - 1]:
+                # a particle created after the NNPS object, outside the box
+                pa = pas[0]
+                L = cfg['L']
+                pos = [(-0.25 if r % 2 else L + 0.25) if a < cfg['dim']
+                       and cfg['axes'][a] == 'p' else (0.25 if a < cfg['dim']
+                                                       else 0.0)
+                       for a in range(3)]
+                uidn = 1000.0 + r
+                pa.add_particles(x=[pos[0]], y=[pos[1]], z=[pos[2]], h=[H0],
+                                 u=[1.5], v=[-2.5], w=[3.5], m=[9.0],
+                                 rho=[101.0], uid=[uidn],
+                                 s3=[uidn + 1, uidn + 2, uidn + 3])
         before = [[p for p in arr if p['tag'] == 0]
                   for arr in read_state(pas)]
         if nn is None:
@@ -373,6 +386,10 @@ def configs(thorough, seed):
                 c2 = dict(c)
                 c2['moves'] = [mv, mv, tuple(-2 * x for x in mv)]
                 hist.append(c2)
+                if mv[1] == 0.0:
+                    c3 = dict(c2)
+                    c3['adds'] = [1, 0, 1]
+                    hist.append(c3)
     # copied-property subsets (list and dict form), unequal h
     extra = []
     for c in out[::11]:
